@@ -47,7 +47,10 @@ type rscenario struct {
 	Discard  int      `json:"discard"` // Discard() after this many Reads of each message; -1 never
 	Want     []int    `json:"want"`
 	DataErr  bool     `json:"dataErr"` // the transport returns its final bytes together with the end error
-	stream   []byte
+	// SkipEmptyCtl: a control frame without payload is neither read nor discarded before the next
+	// NextFrame (there is nothing to receive; wsutil.ControlHandler does not read an empty payload)
+	SkipEmptyCtl bool `json:"skipEmptyCtl"`
+	stream       []byte
 }
 
 // fspec is what generators write; build() lays the frames out in a stream.
@@ -298,6 +301,9 @@ func runReader(sc *rscenario) (evs []interface{}) {
 			}
 			if hdr.OpCode.IsControl() && frag {
 				continue // intermediate control frame met by an explicit NextFrame
+			}
+			if sc.SkipEmptyCtl && hdr.OpCode.IsControl() && hdr.Length == 0 && sc.Entry == "reader" {
+				continue
 			}
 			if hdr.OpCode.IsData() {
 				frag = !hdr.Fin
